@@ -186,7 +186,7 @@ def run(ctx):
         if op in ("gen", "parsegen", "genshared"):
             # (parsegen: a document parsed and generated again - values nested deeper than the harness's snapshot are compared as text)
             if r["obs"] != "value" or r["val"].get("t") != "str":
-                rep("no-text", "%s did not return a text: %s %s" % ("生成JSON" if op == "gen" else "生成JSON(解析JSON(document))" + why, r["obs"], r.get("msg"))); continue
+                rep("no-text", "%s did not return a text: %s %s" % ("生成JSON" if op == "gen" else ("生成JSON of a value in which " + why) if op == "genshared" else "生成JSON(解析JSON(document))" + why, r["obs"], r.get("msg"))); continue
             try:
                 back = strict_loads(r["val"]["v"])
             except Exception as e:
